@@ -161,6 +161,10 @@ class SccContext:
 
   def backspace(self):
     """Move the cursors in a column to the left"""
+    if self.get_caption_to_process() is None:
+      # no caption is being built
+      return
+
     self.get_caption_to_process().get_current_text().backspace()
     (row, indent) = self.get_caption_to_process().get_cursor()
     self.get_caption_to_process().set_cursor_at(row, max(indent - 1, 0))
@@ -381,14 +385,11 @@ class SccContext:
       # Erase buffered caption
       self.new_buffered_caption()
 
-    elif control_code is SccControlCode.TO1:
-      self.get_caption_to_process().indent_cursor(1)
-
-    elif control_code is SccControlCode.TO2:
-      self.get_caption_to_process().indent_cursor(2)
-
-    elif control_code is SccControlCode.TO3:
-      self.get_caption_to_process().indent_cursor(3)
+    elif control_code in (SccControlCode.TO1, SccControlCode.TO2, SccControlCode.TO3):
+      if self.get_caption_to_process() is not None:
+        self.get_caption_to_process().indent_cursor(
+          {SccControlCode.TO1: 1, SccControlCode.TO2: 2, SccControlCode.TO3: 3}[control_code]
+        )
 
     elif control_code is SccControlCode.CR:
       # Roll the displayed caption up one row (Roll-Up)
